@@ -105,6 +105,9 @@ def check_c09(idx: Index, tier: str, res: Result) -> None:
     # POST /run reports what the other channels report for the same settings: no value memoised under earlier settings survives
     from .memo import run_resource_reset_rule
     run_resource_reset_rule(idx, res, "PASSTHROUGH")
+    # every channel walks the same grid: none of them counts its steps by truncating a float quotient
+    from ..util import truncated_step_counts
+    truncated_step_counts(idx, res, "STEP", ("BPTK_Py/bptk.py", "BPTK_Py/server/", "BPTK_Py/sdsimulation/", "BPTK_Py/scenariorunners/"))
 
     from .memo import selected_scenarios_without
     bad = selected_scenarios_without(bs, "reset_scenario_cache")
